@@ -14,6 +14,7 @@ import (
 // FaultCfg says which transport faults the environment offers.
 type FaultCfg struct {
 	Drop, Dup      bool
+	Delay          bool   // delay without drop/dup
 	AfterHandshake bool   // only once both constructors have returned
 	Max            int    // at most this many fault actions per execution (0 = budget only)
 	Only           string // restrict to one link ("c2s"/"s2c")
@@ -51,6 +52,12 @@ type Scenario struct {
 	Monitors     []func(w *World)
 	Final        []func(w *World, x *vrt.Exec)
 	NoDrainClose bool
+	// Latency is a fixed one-way delay of every packet (0 = none).
+	Latency time.Duration
+	// RawClient, when set, replaces the real client by a harness thread
+	// that speaks the protocol by hand; RawN is the window it proposes.
+	RawClient func(w *World)
+	RawN      uint8
 	// NoCloseAllowed: no endpoint may shut down by itself (keepalive off).
 	NoCloseAllowed bool
 	// Owns says which cross-cutting events are violations in this
@@ -469,7 +476,7 @@ func init() {
 				}
 			}
 		}
-		sc.Faults = FaultCfg{Drop: false, Dup: false}
+		sc.Faults = FaultCfg{Delay: true, AfterHandshake: true}
 		return sc
 	}
 }
@@ -483,4 +490,335 @@ func chunkPayload(i, l int) []byte {
 		}
 	}
 	return b
+}
+
+// ---------------------------------------------------------------- C10: handshake
+
+func stalePacket(tok string, n uint8) []byte {
+	var m gbn.Message
+	switch tok {
+	case "SYN":
+		m = &gbn.PacketSYN{N: n}
+	case "SYNACK":
+		m = &gbn.PacketSYNACK{}
+	case "DATA":
+		m = &gbn.PacketData{Seq: 0, FinalChunk: true, Payload: []byte("stale")}
+	case "ACK":
+		m = &gbn.PacketACK{Seq: 0}
+	case "NACK":
+		m = &gbn.PacketNACK{Seq: 0}
+	case "FIN":
+		m = &gbn.PacketFIN{}
+	default:
+		panic("unknown stale packet " + tok)
+	}
+	b, _ := m.Serialize()
+	return b
+}
+
+func init() {
+	// hs: handshake under faults and stale packets, then one message each
+	// way. staleC / staleS = dot-separated packet types queued towards the
+	// server / the client before anything else.
+	builders["hs"] = func(name string, p params) *Scenario {
+		sc := &Scenario{}
+		common(sc, p)
+		sc.Faults = FaultCfg{Drop: true, Dup: true}
+		if p.has("nofaults") {
+			sc.Faults = FaultCfg{}
+		}
+		for _, tok := range strings.Split(p["staleC"], ".") {
+			if tok != "" {
+				sc.StaleC2S = append(sc.StaleC2S, stalePacket(tok, sc.N))
+			}
+		}
+		for _, tok := range strings.Split(p["staleS"], ".") {
+			if tok != "" {
+				sc.StaleS2C = append(sc.StaleS2C, stalePacket(tok, sc.N))
+			}
+		}
+		sc.ClientScripts = [][]Op{sends('c', 1, -1), recvs(1)}
+		sc.ServerScripts = [][]Op{sends('s', 1, -1), recvs(1)}
+		settle := 45 * time.Second
+		sc.Goal = func(w *World) bool {
+			if w.appsFinished() && w.c2s.head() == nil && w.s2c.head() == nil {
+				return true
+			}
+			return w.s.Now() >= w.lastFaultAt+settle
+		}
+		// let FINs and late packets land before judging the end state
+		sc.IdleAfter = 5 * time.Second
+		sc.Monitors = append(sc.Monitors, monHandshake, monWindow)
+		sc.Final = append(sc.Final, finalHandshake)
+		sc.Cfg.Horizon = 150 * time.Second
+		sc.Cfg.DrainTime = 10 * time.Second
+		return sc
+	}
+}
+
+// ---------------------------------------------------------------- C06: progress
+
+func init() {
+	// prog: traffic scenario with the progress oracles. kind=uni|bidi.
+	builders["prog"] = func(name string, p params) *Scenario {
+		sc := &Scenario{}
+		common(sc, p)
+		k := p.int("k", 3)
+		switch p["kind"] {
+		case "bidi":
+			sc.ClientScripts = [][]Op{sends('c', k, -1), recvs(k)}
+			sc.ServerScripts = [][]Op{sends('s', k, -1), recvs(k)}
+		default:
+			sc.ClientScripts = [][]Op{sends('c', k, -1)}
+			sc.ServerScripts = [][]Op{recvs(k)}
+		}
+		sc.NoCloseAllowed = !p.has("ka")
+		sc.Monitors = append(sc.Monitors, monPrefix, monQuiet)
+		sc.Final = append(sc.Final, finalAllDelivered, finalNoHang)
+		sc.IdleAfter = 12 * time.Second
+		sc.Cfg.Horizon = 150 * time.Second
+		sc.Cfg.DrainTime = 10 * time.Second
+		return sc
+	}
+}
+
+// ---------------------------------------------------------------- C13: keepalive
+
+func kaSides(sc *Scenario, p params) {
+	switch p["kaside"] {
+	case "c":
+		sc.PingS, sc.PongS = 0, 0
+	case "s":
+		sc.PingC, sc.PongC = 0, 0
+	}
+}
+
+func init() {
+	// kadead: keepalive on; the transport goes silent (both directions
+	// drop everything, for ever) at a point chosen by the scheduler while
+	// the client sends k messages.
+	builders["kadead"] = func(name string, p params) *Scenario {
+		sc := &Scenario{}
+		if !p.has("ka") {
+			p["ka"] = "5s,3s"
+		}
+		common(sc, p)
+		kaSides(sc, p)
+		sc.Faults = FaultCfg{}
+		k := p.int("k", int(sc.N)+2)
+		sc.ClientScripts = [][]Op{sends('c', k, -1)}
+		sc.ServerScripts = [][]Op{recvs(k + 1)}
+		sc.ExtraActions = func(w *World) []vrt.Action {
+			if !w.handshakeDone() || w.blackholed || w.goalReached {
+				return nil
+			}
+			return []vrt.Action{{
+				Label: "blackhole", Kind: vrt.KFault,
+				Do: func() {
+					w.blackholed = true
+					w.blackholeAt = w.s.Now()
+					w.faultsUsed++
+					for _, l := range []*Link{w.c2s, w.s2c} {
+						l.mu.Lock()
+						l.blackhole = true
+						l.inflight = nil
+						l.mu.Unlock()
+					}
+					// what is queued at this moment
+					if w.C.Conn != nil {
+						w.extra["queuedAtBlackhole"] = int(w.C.Conn.VerifSnapshot().Size)
+					}
+				},
+			}}
+		}
+		sc.Goal = func(w *World) bool {
+			if w.blackholed {
+				// done when every side that has keepalive closed,
+				// or well past the detection limit
+				all := true
+				maxPing := sc.PingC
+				if sc.PingS > maxPing {
+					maxPing = sc.PingS
+				}
+				if (sc.PingC > 0 && w.C.closedAt < 0) || (sc.PingS > 0 && w.S.closedAt < 0) {
+					all = false
+				}
+				if all {
+					return true
+				}
+				return w.s.Now() >= w.blackholeAt+maxPing+sc.PongC+sc.PongS+16*time.Second
+			}
+			return w.s.Now() >= p.dur("until", 12*time.Second)
+		}
+		sc.IdleAfter = 2 * time.Second
+		sc.Final = append(sc.Final, finalKeepaliveDead)
+		sc.Cfg.Horizon = 120 * time.Second
+		sc.Cfg.DrainTime = 10 * time.Second
+		return sc
+	}
+	// kalive: keepalive on, healthy link with a fixed one-way latency,
+	// both applications idle for a long time after a little traffic.
+	builders["kalive"] = func(name string, p params) *Scenario {
+		sc := &Scenario{}
+		if !p.has("ka") {
+			p["ka"] = "2s,1s"
+		}
+		common(sc, p)
+		kaSides(sc, p)
+		sc.Faults = FaultCfg{}
+		sc.Latency = p.dur("lat", 0)
+		sc.ClientScripts = [][]Op{sends('c', 1, -1)}
+		sc.ServerScripts = [][]Op{recvs(1)}
+		idle := p.dur("idle", 45*time.Second)
+		sc.Goal = func(w *World) bool { return w.s.Now() >= idle }
+		sc.Monitors = append(sc.Monitors, func(w *World) {
+			for _, e := range []*Endpoint{w.C, w.S} {
+				if e.closedAt >= 0 {
+					w.fail("keepalive/live-peer-closed/"+e.Name,
+						"%s closed the connection at %v although the peer answered every packet within %v (< pong timeout)",
+						e.Name, e.closedAt, 2*w.sc.Latency)
+				}
+			}
+		})
+		sc.Final = append(sc.Final, func(w *World, x *vrt.Exec) {
+			pings := 0
+			for _, l := range []*Link{w.c2s, w.s2c} {
+				for _, r := range l.wire {
+					if strings.HasPrefix(pktName(r.Data), "PING") {
+						pings++
+					}
+				}
+			}
+			if pings >= 5 {
+				w.reached["pings>=5"] = true
+			}
+		})
+		sc.Cfg.Horizon = idle + 30*time.Second
+		sc.Cfg.DrainTime = 10 * time.Second
+		return sc
+	}
+}
+
+// ---------------------------------------------------------------- C07: hostile packets on live endpoints
+
+func hostileAlphabet(n uint8) [][]byte {
+	s := n + 1
+	vals := []uint8{0, 1, n - 1, n, n + 1, s - 1, s, 254, 255}
+	seen := map[string]bool{}
+	var out [][]byte
+	add := func(b []byte) {
+		if !seen[string(b)] {
+			seen[string(b)] = true
+			out = append(out, b)
+		}
+	}
+	for _, v := range vals {
+		add([]byte{gbn.SYN, v})
+		add([]byte{gbn.ACK, v})
+		add([]byte{gbn.NACK, v})
+		add([]byte{gbn.DATA, v, 1, 0, 'x'})
+		add([]byte{gbn.DATA, v, 0, 1})
+		add([]byte{gbn.DATA, v, 1})
+		add([]byte{gbn.DATA, v})
+	}
+	add([]byte{gbn.DATA})
+	add([]byte{gbn.ACK})
+	add([]byte{gbn.NACK})
+	add([]byte{gbn.SYN})
+	add([]byte{gbn.FIN})
+	add([]byte{gbn.SYNACK})
+	add([]byte{})
+	add([]byte{0})
+	add([]byte{7, 1, 2})
+	add([]byte{255})
+	return out
+}
+
+func init() {
+	// inject: light traffic; at one point chosen by the scheduler one
+	// packet of the hostile alphabet is put in front of one endpoint.
+	builders["inject"] = func(name string, p params) *Scenario {
+		sc := &Scenario{}
+		common(sc, p)
+		sc.Faults = FaultCfg{}
+		k := p.int("k", 2)
+		sc.ClientScripts = [][]Op{sends('c', k, -1), recvs(1)}
+		sc.ServerScripts = [][]Op{recvs(k), sends('s', 1, -1)}
+		alpha := hostileAlphabet(sc.N)
+		sc.ExtraActions = func(w *World) []vrt.Action {
+			if w.injectUsed >= 1 {
+				return nil
+			}
+			if p.has("datafase") && !w.handshakeDone() {
+				return nil
+			}
+			var acts []vrt.Action
+			for _, l := range []*Link{w.c2s, w.s2c} {
+				l := l
+				for _, b := range alpha {
+					b := b
+					acts = append(acts, vrt.Action{
+						Label: fmt.Sprintf("inject:%s:%x", l.name, b), Kind: vrt.KFault, OnlyIdle: true,
+						Do: func() { w.injectUsed++; w.faultsUsed++; l.inject(b) },
+					})
+				}
+			}
+			return acts
+		}
+		sc.Goal = func(w *World) bool {
+			if w.appsFinished() {
+				return true
+			}
+			return w.injectUsed > 0 && w.s.Now() >= 20*time.Second
+		}
+		sc.Monitors = append(sc.Monitors, monWindow)
+		sc.Owns = map[string]bool{"panic": true}
+		sc.Cfg.Horizon = 40 * time.Second
+		sc.Cfg.DrainTime = 5 * time.Second
+		return sc
+	}
+	// synN: a raw peer plays the client side of the handshake with an
+	// arbitrary window byte and then sends data and acknowledgements.
+	builders["synN"] = func(name string, p params) *Scenario {
+		sc := &Scenario{}
+		common(sc, p)
+		sc.Faults = FaultCfg{}
+		v := uint8(p.int("v", 255))
+		sc.RawN = v
+		sc.RawClient = func(w *World) {
+			send := func(m gbn.Message) {
+				b, _ := m.Serialize()
+				_ = w.c2s.send(w.C.ctx, b)
+			}
+			recvType := func() gbn.Message {
+				b, err := w.s2c.recv(w.C.ctx)
+				if err != nil {
+					return nil
+				}
+				m, _ := safeDeserialize(b)
+				return m
+			}
+			send(&gbn.PacketSYN{N: v})
+			for i := 0; i < 3; i++ {
+				if _, ok := recvType().(*gbn.PacketSYN); ok {
+					break
+				}
+			}
+			send(&gbn.PacketSYNACK{})
+			for seq := uint8(0); seq < 3; seq++ {
+				send(&gbn.PacketData{Seq: seq, FinalChunk: true, Payload: []byte{'r', seq}})
+			}
+			send(&gbn.PacketACK{Seq: 0})
+			send(&gbn.PacketNACK{Seq: 1})
+			time.Sleep(5 * time.Second)
+			vrt.Point("raw.wake")
+		}
+		sc.ServerScripts = [][]Op{sends('s', 2, -1), recvs(1)}
+		sc.Goal = func(w *World) bool { return w.s.Now() >= 5*time.Second }
+		sc.Monitors = append(sc.Monitors, monWindow, monHandshake)
+		sc.Owns = map[string]bool{"panic": true}
+		sc.Cfg.Horizon = 20 * time.Second
+		sc.Cfg.DrainTime = 5 * time.Second
+		return sc
+	}
 }
